@@ -27,6 +27,7 @@ type c11lStep struct {
 	Remote int    `json:"remote"`
 	XFF    string `json:"xff,omitempty"`
 	XRI    string `json:"xri,omitempty"`
+	Flood  int    `json:"flood,omitempty"` // before this step, that many other clients (fresh addresses) make one request each
 }
 
 type c11lCase struct {
@@ -72,6 +73,13 @@ func genC11Lib(rt *rapid.T) c11lCase {
 			s.XRI = c11lHosts[lang.Spread(rt, "xrh", len(c11lHosts))]
 		}
 		c.Steps = append(c.Steps, s)
+	}
+	// sometimes a crowd of other clients arrives in between: the limiter keeps one bucket per
+	// client and has to bound that table somehow; whatever it does must not hand a spent
+	// client a fresh budget or charge one client for another
+	if lang.Spread(rt, "flood", 100) < 10 {
+		at := lang.Spread(rt, "floodat", len(c.Steps))
+		c.Steps[at].Flood = []int{40, 40, 900, 900, 10300}[lang.Spread(rt, "floodn", 5)] // the table is swept beyond 10000 entries; larger crowds only cost time
 	}
 	return c
 }
@@ -123,7 +131,21 @@ func runC11Lib(c c11lCase) evid.Outcome {
 	}
 	byID := map[string][]ev{}
 	window := time.Minute
+	floodSeq := 0
 	for si, s := range c.Steps {
+		for k := 0; k < s.Flood; k++ {
+			floodSeq++
+			r := httptest.NewRequest("GET", "http://verif.test/x", nil)
+			r.RemoteAddr = net.JoinHostPort(fmt.Sprintf("11.%d.%d.%d", floodSeq>>16&255, floodSeq>>8&255, floodSeq&255), "999")
+			w := httptest.NewRecorder()
+			before := ran
+			if err := h(&Context{Request: r, ResponseWriter: w, StatusCode: 200}); err != nil {
+				return evid.Failf("c11.lib-error", "flood request %d before step %d: %v", k, si, err)
+			}
+			if ran != before+1 {
+				return evid.Failf("c11.client-within-rate-rejected", "the first request of a client never seen before (%s) was refused with %d while %d other clients are known", r.RemoteAddr, w.Code, floodSeq)
+			}
+		}
 		clockMu.Lock()
 		now = now.Add(time.Duration((int64(window)*s.DtNum + s.DtDen - 1) / s.DtDen))
 		t := now.Sub(start)
@@ -154,6 +176,11 @@ func runC11Lib(c c11lCase) evid.Outcome {
 	N, B := int64(c.N), int64(c.Burst)
 	nontrivial := len(byID) >= 2
 	labels := []string{fmt.Sprintf("trust:%v/%d", c.TrustProxy, len(c.Trusted))}
+	if floodSeq > 10000 {
+		labels = append(labels, "more-than-10000-other-clients")
+	} else if floodSeq > 0 {
+		labels = append(labels, "other-clients-in-between")
+	}
 	ids := make([]string, 0, len(byID))
 	for id := range byID {
 		ids = append(ids, id)
